@@ -4,7 +4,7 @@
 P="$1"; ID="$2"; TIER="${3:-quick}"
 W=$(mktemp -d /root/mutcopy.XXXXXX)
 git -C /repo archive HEAD src | tar -x -C "$W"
-( cd "$W" && git apply "$P" ) || { echo "patch does not apply"; rm -rf "$W"; exit 2; }
+( cd "$W" && git apply --include="src/*" "$P" ) || { echo "patch does not apply"; rm -rf "$W"; exit 2; }
 cd /verif && VP_SRC="$W/src" ./check "$ID" "$TIER" --no-recheck > "$W/log" 2>&1; rc=$?
 grep -v "^  witness\|^VIOLATION\|^WARNING" "$W/log" | tail -8 | cut -c1-500
 echo "violations: $(grep -c '^VIOLATION' "$W/log")  exit=$rc"
